@@ -224,10 +224,10 @@ class World(Sim):
                 live = self.q('SELECT job_id FROM jobs WHERE batch_id = %s AND state NOT IN (\'Success\', \'Failed\', \'Error\', \'Cancelled\')',
                               (u['batch_id'],))
                 if abs_parents & {x['job_id'] for x in live}:
-                    if 'uncommitted-child-made-ready-by-parent-completion' in self.guards:
-                        self.excluded += 1
-                        return None
-                    self.flags.append('uncommitted-child-made-ready-by-parent-completion')
+                    # the bunch itself is harmless; what is excluded (guarded runs) is the trigger: such a parent completing before
+                    # the commit (see _frozen_parent_guard)
+                    if 'uncommitted-child-made-ready-by-parent-completion' not in self.guards:
+                        self.flags.append('uncommitted-child-made-ready-by-parent-completion')
         specs = [self._job_spec(u, k) for k in range(lo, hi)]
         r = await self._guard(self.m.fe._create_jobs(self.userdata(u['batch']['user']), specs, u['batch_id'], u['update_id'], self.app))
         if r['ok'] and not resend:
@@ -296,6 +296,34 @@ class World(Sim):
             return None
         kids = [dict(j, parents=[(n - 1) if p < 0 else p % n for p in j.get('parents', [])]) for j in kids]
         return await self.op_submit(batch_i, [], kids)
+
+    def _frozen_parents(self):
+        """{(batch_id, job_id): state} of non-terminal jobs that have a child inserted by a later, still uncommitted update"""
+        open_updates = {(u['batch_id'], u['update_id']) for u in self.q('SELECT batch_id, update_id FROM batch_updates WHERE NOT committed')
+                        if u['update_id'] != 1}
+        if not open_updates:
+            return {}
+        kids = {(j['batch_id'], j['job_id']) for j in self.q('SELECT batch_id, job_id, update_id FROM jobs')
+                if (j['batch_id'], j['update_id']) in open_updates}
+        if not kids:
+            return {}
+        parents = {(x['batch_id'], x['parent_id']) for x in self.q('SELECT batch_id, job_id, parent_id FROM job_parents')
+                   if (x['batch_id'], x['job_id']) in kids}
+        return {(j['batch_id'], j['job_id']): j['state'] for j in self.q('SELECT batch_id, job_id, state FROM jobs')
+                if (j['batch_id'], j['job_id']) in parents and j['state'] not in ('Success', 'Failed', 'Error', 'Cancelled')}
+
+    def _frozen_parent_guard(self, job=None, states=None):
+        """known finding 'uncommitted-child-made-ready-by-parent-completion': True if the op must be skipped (guarded run) because it
+        would complete a parent (the given job, or any parent in one of `states`) of a child of a still uncommitted later update"""
+        fz = self._frozen_parents()
+        hit = (job in fz) if job is not None else any(st_ in states for st_ in fz.values())
+        if not hit:
+            return False
+        if 'uncommitted-child-made-ready-by-parent-completion' in self.guards:
+            self.excluded += 1
+            return True
+        self.flags.append('uncommitted-child-made-ready-by-parent-completion')
+        return False
 
     async def op_cancel(self, batch_i, group_ref=0):
         b = self._pick(self.batches, batch_i)
@@ -491,6 +519,8 @@ WHERE {where} ORDER BY jobs.batch_id, jobs.job_id''', args)
         a = self._pick([x for x in self.attempts if x['instance'] in self.instances and self.instances[x['instance']].state == 'active'], att_i)
         if a is None:
             return None
+        if self._frozen_parent_guard(job=(a['batch_id'], a['job_id'])):
+            return None
         inst = self.instances[a['instance']]
         st = ['succeeded', 'failed', 'error'][state % 3]
         jg = self.q('SELECT job_group_id FROM jobs WHERE batch_id = %s AND job_id = %s', (a['batch_id'], a['job_id']))
@@ -585,9 +615,13 @@ WHERE {where} ORDER BY jobs.batch_id, jobs.job_id''', args)
         return r
 
     async def op_cancel_ready(self):
+        if self._frozen_parent_guard(states=('Ready',)):
+            return None
         return await self._guard(self.canceller.cancel_cancelled_ready_jobs_loop_body())
 
     async def op_cancel_creating(self):
+        if self._frozen_parent_guard(states=('Creating',)):
+            return None
         return await self._guard(self.canceller.cancel_cancelled_creating_jobs_loop_body())
 
     async def op_cancel_running(self):
